@@ -35,9 +35,9 @@ PostOf(e, pre) == [exit |-> e.exit, regs |-> e.regs, gas |-> e.gas, acc |-> pre.
                    ychg |-> e.yx /\ FALSE, yx |-> e.yx]
 Holds(j) ==
   LET k == j[1] cs == CaseOf(k, j[2], j[3])
-      pre == State(cs.regs, cs.gas, AccCtx(j[2]))
+      pre == StateK(k, cs.regs, cs.gas, AccCtx(j[2]))
       outs == Omega(k, pre)
-  IN \A i \in 1..Len(outs) : FrameBad(k, pre, PostOf(outs[i], pre), "") = {}
+  IN HasOmega(k, pre) => \A i \in 1..Len(outs) : FrameBad(k, pre, PostOf(outs[i], pre), "") = {}
 \* P-xgas alternatives of transfer charge l as well: F-gas is not applied to transfer by FrameBad
 
 Init == job \in {j \in Jobs : JobOK(j)}
@@ -45,7 +45,7 @@ Next == FALSE /\ job' = job
 Spec == Init /\ [][Next]_job
 FrameHolds == Holds(job)
 \* quick tier: the one-factor-at-a-time and gas cases of one context variant
-QuickJobs == job[2] = 1
+QuickJobs == job[2] = 1 /\ (job[1] \notin {1, 6, 14, 15, 16, 26} \/ job[3] % 2 = 1)
 \* vacuity guard: the cases reach every kind of outcome
-Kinds(j) == LET k == j[1] cs == CaseOf(k, j[2], j[3]) IN Omega(k, State(cs.regs, cs.gas, AccCtx(j[2])))[1].exit
+Kinds(j) == LET k == j[1] cs == CaseOf(k, j[2], j[3]) IN Omega(k, StateK(k, cs.regs, cs.gas, AccCtx(j[2])))[1].exit
 =============================================================================
